@@ -1305,10 +1305,11 @@ Lemma gen_cross_support : forall k, k = CbcaIR.cross_support ->
       arms_arr C nr nc (Cbca.cross_support nr nc I len inten).
 Proof. intros k ->. exact ir_cross_support. Qed.
 
-(* ================================================================ the int16 cells of cross_support
-   The evaluator computes with unbounded integers; the arms are stored in an int16 array.  An arm
-   is at most max(1, cbca_distance - 1) and stays inside the image, so the store is exact as
-   soon as cbca_distance <= 32768 or both sides of the image are <= 32768. *)
+(* ================================================================ the int32 cells of cross_support
+   The evaluator computes with unbounded integers; the arms are stored in an int32 array (int16
+   before the `fix:` commit of the tree under test: arms of 32768 pixels or more wrapped around).
+   An arm is at most max(1, cbca_distance - 1) and stays inside the image, so the store is exact
+   as soon as cbca_distance <= 2^31 or both sides of the image are <= 2^31. *)
 
 Lemma ray_arm_le : forall get dist inten v, ray_arm get dist inten v <= Z.max 1 (dist - 1).
 Proof.
@@ -1324,12 +1325,12 @@ Proof.
   intros. split; [apply spec_arm_inside|]. unfold spec_arm. destruct (px I r c); [apply ray_arm_le | lia].
 Qed.
 
-Theorem arms_fit_int16 : forall nr nc len inten I r c k,
-  1 <= len -> 0 <= r < nr -> 0 <= c < nc -> 0 <= k < 4 ->
-  len <= 32768 \/ (nr <= 32768 /\ nc <= 32768) ->
-  0 <= arm_at (Cbca.cross_support nr nc I len inten r c) k <= 32767.
+Theorem arms_fit : forall bound nr nc len inten I r c k,
+  1 <= bound -> 1 <= len -> 0 <= r < nr -> 0 <= c < nc -> 0 <= k < 4 ->
+  len <= bound + 1 \/ (nr <= bound + 1 /\ nc <= bound + 1) ->
+  0 <= arm_at (Cbca.cross_support nr nc I len inten r c) k <= bound.
 Proof.
-  intros nr nc len inten I r c k Hlen Hr Hc Hk Hsz.
+  intros bound nr nc len inten I r c k Hb Hlen Hr Hc Hk Hsz.
   rewrite arms_spec by assumption. cbv zeta.
   destruct (spec_arm_in_image (mkF nr nc I) len inten r c) as (B1 & B2 & B3 & B4); [exact Hr | exact Hc |].
   cbn [f_nr f_nc] in *.
@@ -1340,3 +1341,15 @@ Proof.
   unfold arm_at. cbn [aL aR aT aB].
   destruct (k =? 0); [lia|]. destruct (k =? 1); [lia|]. destruct (k =? 2); lia.
 Qed.
+
+Corollary arms_fit_int32 : forall nr nc len inten I r c k,
+  1 <= len -> 0 <= r < nr -> 0 <= c < nc -> 0 <= k < 4 ->
+  len <= 2147483648 \/ (nr <= 2147483648 /\ nc <= 2147483648) ->
+  0 <= arm_at (Cbca.cross_support nr nc I len inten r c) k <= 2147483647.
+Proof. intros. apply arms_fit; auto; lia. Qed.
+
+(* the witness of the defect repaired in the tree under test: an arm that does not fit int16
+   (computed once here: 33000 candidates; Props/C11.v only restates it) *)
+Lemma int16_witness :
+  aL (Cbca.cross_support 1 33000 (fun _ _ => Some 7%Q) 40000 (5 # 1) 0 32999) = 32999 /\ 32767 < 32999 <= 2147483647.
+Proof. split; [vm_compute; reflexivity | lia]. Qed.
